@@ -505,12 +505,16 @@ func newTunWorld(state int, started bool) *tunWorld {
 	return w
 }
 
+// settleNotes waits until no asynchronous close-notification goroutine (spawned by sendCloseNotification with a `go`
+// statement BEFORE Close returns) is still pending, then reads the counter: exact, no timing assumption.
 func (w *tunWorld) settleNotes(expectAtLeast int32) int {
-	deadline := time.Now().Add(3 * time.Second) // only waits while the asynchronous notification is still missing
-	for w.cl.notes.Load() < expectAtLeast && time.Now().Before(deadline) {
-		runtime.Gosched()
-	}
-	for i := 0; i < 200; i++ {
+	buf := make([]byte, 1<<20)
+	deadline := time.Now().Add(10 * time.Second)
+	for time.Now().Before(deadline) {
+		n := runtime.Stack(buf, true)
+		if !strings.Contains(string(buf[:n]), "sendCloseNotification") {
+			break
+		}
 		runtime.Gosched()
 	}
 	return int(w.cl.notes.Load())
